@@ -62,7 +62,7 @@ theorem SInv.commit {cfg : Cfg} (G : Good cfg) {s : State n} (h : SInv cfg s) {t
     (by intro e; have : s.disk.txs = [] := by simpa [keyClocks] using e
         exact ⟨hempty this, by rw [this]; rfl⟩)
   have sinv : SInv cfg (updateState s d tx) := by
-    refine ⟨⟨hg.idx, hg.closed, hg.count, hg.lc, hg.head⟩, ?_, ?_, ?_⟩
+    refine ⟨⟨hg.idx, hg.closed, hg.count, hg.lc, hg.head, hg.nodup, hg.keys⟩, ?_, ?_, ?_⟩
     · show (if s.mem.lcHigh ≥ tx.clock then s.mem.lcHigh else tx.clock) = d.lcHigh
       rw [hlc, h.lc]
       by_cases hc : s.disk.lcHigh ≥ tx.clock <;> simp [hc] <;> omega
